@@ -158,6 +158,47 @@ def run(ctx):
         ns = [n for n in ns]
         sets.append((ns, [rng.choice([1, 1, 2, 3]) for _ in ns]))
     perm_check(ctx, "sort-permutations", sets)
+    object_histories(ctx, 1500 if ctx.thorough else 250)
+
+
+def object_histories(ctx, count):
+    """the same Scaffold objects sorted, renamed (as ChrNamer / rename_by_size do), and sorted again: the second order must be
+    the order fresh objects with the new names would get"""
+    from tola.assembly.assembly import Assembly
+    from tola.assembly.scaffold import Scaffold
+    out, rng = ctx.out, ctx.rng
+    for _ in range(count):
+        n = rng.randint(2, 14)
+        names = [f"Scaffold_{i+1}" for i in range(n)]
+        rng.shuffle(names)
+        scs = [Scaffold(nm, rank=rng.choice([1, 1, 2, 3])) for nm in names]
+        asm = Assembly("x", scaffolds=list(scs))
+        script = []
+        try:
+            for step in range(rng.randint(1, 3)):
+                if rng.random() < 0.5:
+                    asm.scaffolds_sorted_by_name(); script.append("sorted_by_name")
+                else:
+                    asm.smart_sort_scaffolds(); script.append("smart_sort")
+                # rename: chromosomes by a new numbering, some unlocs
+                order = list(range(1, n + 1)); rng.shuffle(order)
+                for s, k in zip(scs, order):
+                    s.name = rng.choice(["SUPER_", "chr", ""]) + str(k) + (f"_unloc_{rng.randint(1, 12)}" if rng.random() < 0.2 else "")
+                script.append("rename")
+            asm.smart_sort_scaffolds()
+            got = [(s.rank, s.name) for s in asm.scaffolds]
+            fresh = Assembly("y", scaffolds=[Scaffold(s.name, rank=s.rank) for s in scs])
+            fresh.smart_sort_scaffolds()
+            keyf = lambda rn: (rn[0], Assembly.name_natural_key(Scaffold(rn[1])))
+            want_keys = [keyf((s.rank, s.name)) for s in fresh.scaffolds]
+            got_keys = [keyf(x) for x in got]
+        except Exception as e:
+            out.oracle_fail("object-histories", {"script": script, "names": [s.name for s in scs]}, f"sorting raised {conv.errkind(e)}")
+            continue
+        inp = {"script": script, "final": got}
+        out.case("object-histories", inp, ("hist", tuple(script), n))
+        if got_keys != want_keys:
+            out.oracle_fail("object-histories", inp, "after renaming, the same scaffold objects sort differently from fresh objects with the same names (stale order)")
 
 
 def search(ctx, broken):
